@@ -116,6 +116,12 @@ def scenario_for(seed, index, tier):
     if v < 0.4:
         net.update(segment=True, short_read=True,
                    max_seg=rng.choice([3, 64, 1000]))
+    if not kick and rng.random() < 0.05:
+        # the stream stalls in mid-frame for longer than any sensible I/O
+        # timeout, once or twice, somewhere in the play traffic
+        net['cut_plan'] = {'0': sorted(rng.sample(range(60, 700),
+                                                  rng.choice([1, 2])))}
+        net['cut_pause_us'] = rng.choice([15000000, 61000000, 400000000])
     slow = None
     if rng.random() < 0.2:
         # a slow early listener: every k-th packet costs it some time
